@@ -17,6 +17,9 @@ SIG = {
     'oid_is': {'sort': 'bool', 'uf': True},
     'oid_startswith': {'sort': 'bool', 'uf': True},
     'oid_der': {'sort': 'bytes', 'uf': True, 'facts': ['len(result) >= 3']},
+    # X.690 8.1.3: number of octets of the long-form length n (the minimum k with n < 256^k), and the definite minimal length octets
+    'len_octets': {'sort': 'int', 'uf': True, 'facts': ['result >= 1', 'n < pow2(8 * result)', 'ite(result == 1, True, n >= pow2(8 * (result - 1)))']},
+    'der_len': 'bytes',
     'octets': {'sort': 'int', 'facts': ['result >= 1']},      # fact proved from the definition: unit enc.pkcs1v15.spec_lemmas
     # ---- section EMSA-PKCS1-v1_5 / RSAES-PKCS1-v1_5 (sig_rsa.py, pkcs1_enc.py)
     'null_required': 'bool', 'emsa_pkcs1_v15_fits': 'bool', 'emsa_pkcs1_v15': 'bytes',
@@ -79,6 +82,19 @@ def octets(n):
     return (mathint.size_in_bits(n) - 1) // 8 + 1
 
 
+def len_octets(n):
+    """the minimum number k >= 1 of octets with n < 256^k"""
+    pass
+
+
+def der_len(n):
+    """X.690 8.1.3.3-8.1.3.5 with 10.1 (DER): the definite form with the minimum number of length octets, n >= 0:
+    one octet n for n <= 127, otherwise 0x80 + k followed by the k = len_octets(n) octets of n, big endian"""
+    if n < 128:
+        return bytes([n])
+    return bytes([128 + len_octets(n)]) + i2osp(n, len_octets(n))
+
+
 class OidStr(object):
 
     def __eq__(self, other):
@@ -114,9 +130,9 @@ def digest_info(oid, with_null, h):
         algo_content = oid_der(oid) + b'\x05\x00'
     else:
         algo_content = oid_der(oid)
-    algo = b'\x30' + der.encode_length(len(algo_content)) + algo_content
-    digest = b'\x04' + der.encode_length(len(h)) + h
-    return b'\x30' + der.encode_length(len(algo) + len(digest)) + algo + digest
+    algo = b'\x30' + der_len(len(algo_content)) + algo_content
+    digest = b'\x04' + der_len(len(h)) + h
+    return b'\x30' + der_len(len(algo) + len(digest)) + algo + digest
 
 
 def emsa_pkcs1_v15_fits(t, emLen):
